@@ -143,6 +143,11 @@ where
         // for the invalidated value.
         let mut cache_opt = self.cache.write().await;
 
+        // Release the outdated value before requesting the current one.
+        // Otherwise the owner, when it has a write request pending, waits for it
+        // to be dropped and never gets to process our request.
+        *cache_opt = None;
+
         // Request and receive current value.
         let (value_tx, value_rx) = oneshot::channel();
         let _ = self.req_tx.send(ReadRequest { value_tx }).await;
